@@ -80,11 +80,46 @@ def bitsLine (lo sh cnt : Nat) : String :=
                hex2 (ffs 64 v) ++ hex2 (fls 64 v)
     one ++ one)
 
-def step (_ : Unit) (line : String) : Unit × String :=
+/-- which `mbrtowc` failure makes the strict scan stop first (`some true` = invalid ⇒ EILSEQ,
+    `some false` = incomplete ⇒ errno untouched, `none` = none) -/
+def firstFail : (fuel : Nat) → Bytes → Option Bool
+  | 0, _ => none
+  | f + 1, s =>
+    if s = [] then none
+    else match utf8Mbr s with
+      | .char n _ => firstFail f (s.drop n)
+      | .nul => none
+      | .invalid => some true
+      | .incomplete => some false
+
+/-- does the char-by-char pass of `mbstr_decode(..., allow_invalid)` meet an invalid sequence -/
+def laxInvalid : (fuel : Nat) → Bytes → Bool
+  | 0, _ => false
+  | f + 1, s =>
+    match s with
+    | [] => false
+    | _ :: r =>
+      match utf8Mbr s with
+      | .char n _ => laxInvalid f (s.drop n)
+      | .nul => false
+      | .invalid => true
+      | .incomplete => laxInvalid f r
+
+/-- new errno state after an op: what the output says after `e=` (the harness keeps the errno a
+    call left behind as the entry errno of the next call) -/
+def errnoAfter (st out : String) : String :=
+  -- (the `errno NAME` op is handled in `step`)
+  match ((out.splitOn " ## ").headD "").splitOn " e=" with
+  | _ :: t :: _ => (t.splitOn " ").headD st
+  | _ => st
+
+def step (st : String) (line : String) : String × String :=
   let bad := "bad-op"
   let out : String :=
     match words line with
     | ["#case"] => "#case"
+    | ["errno", n] =>
+      if ["0", "ERANGE", "EINVAL", "EPERM", "ENOMEM", "EILSEQ", "ENOSPC"].contains n then "ok" else "bad-op"
     | ["locale"] => "utf8"
     | [op, d, s, n] =>
       if op = "strlcpy" ∨ op = "strlcat" ∨ op = "strpcpy" ∨ op = "strpcat" ∨ op = "mempcpy" then
@@ -108,7 +143,7 @@ def step (_ : Unit) (line : String) : Unit × String :=
         match arg d, int64? s, int64? n with
         | some b, some mn, some mx =>
           let r := strtonum (b ++ [0]) mn mx
-          toString r.1 ++ " " ++ errStr r.2 ++ " " ++ errnoStr r.2
+          toString r.1 ++ " " ++ errStr r.2 ++ " e=" ++ r.2.errno.getD st
         | _, _, _ => bad
       else if op = "bits" then
         match u64? d, u64? s, u64? n with
@@ -119,15 +154,15 @@ def step (_ : Unit) (line : String) : Unit × String :=
         | some af, some a, some size =>
           if size > 100 ∨ size < -5 ∨ (af = 4 ∧ a.length ≠ 4) ∨ (af = 6 ∧ a.length ≠ 16) ∨
              d.startsWith "+" ∨ n.startsWith "+" then bad
-          else if size < 0 then "null ENOSPC -"
+          else if size < 0 then "null e=ENOSPC -"
           else
             let sz := size.toNat
             let dst := fillAA sz
-            if af ≠ 4 ∧ af ≠ 6 then "null EAFNOSUPPORT " ++ hexOf dst
+            if af ≠ 4 ∧ af ≠ 6 then "null e=EAFNOSUPPORT " ++ hexOf dst
             else
               match (if af = 4 then ntop4 a dst sz else ntop6 a dst sz) with
-              | some d' => "dst 0 " ++ hexOf d'
-              | none => "null ENOSPC " ++ hexOf dst
+              | some d' => "dst e=" ++ st ++ " " ++ hexOf d'
+              | none => "null e=ENOSPC " ++ hexOf dst
         | _, _, _ => bad
       else if op = "fmt" then
         match s.toNat?, n.toNat? with
@@ -137,23 +172,34 @@ def step (_ : Unit) (line : String) : Unit × String :=
           else
             let r := cxVasprintf (fmtText kind len)
             match r.2 with
-            | some b => toString r.1 ++ " " ++ hexOf b
-            | none => toString r.1 ++ " null"
+            | some b => toString r.1 ++ " e=" ++ st ++ " " ++ hexOf b
+            | none => toString r.1 ++ " e=" ++ st ++ " null"
         | _, _ => bad
       else if op = "mbs" then
         match arg d, s.toNat? with
         | some src, some srclen =>
+          -- mbrtowc sets EILSEQ for an invalid sequence, nothing for an incomplete one
+          let probe := mbsnrtowcs utf8Mbr src srclen (some (List.replicate (srclen + 1) 0))
+          let failOff := match probe.ret, probe.srcp with
+            | none, some o => some o
+            | _, _ => none
+          let mbsEOf (r : Mbs) : String :=
+            match r.ret, failOff with
+            | none, some o => if utf8Mbr ((src.take srclen).drop o) == .invalid then "EILSEQ" else st
+            | _, _ => st
           if srclen > src.length then bad
           else if n = "null" then
             let r := mbsnrtowcs utf8Mbr src srclen none
-            (match r.ret with | some k => toString k | none => "-1") ++ " " ++ offStr r.srcp ++ " -"
+            let mbsE := mbsEOf r
+            (match r.ret with | some k => toString k | none => "-1") ++ " e=" ++ mbsE ++ " " ++ offStr r.srcp ++ " -"
           else
             match n.toNat? with
             | some dstlen =>
               if dstlen > 4096 then bad
               else
                 let r := mbsnrtowcs utf8Mbr src srclen (some (List.replicate dstlen 0x7AAAAAAA))
-                (match r.ret with | some k => toString k | none => "-1") ++ " " ++ offStr r.srcp ++ " " ++
+                let mbsE := mbsEOf r
+                (match r.ret with | some k => toString k | none => "-1") ++ " e=" ++ mbsE ++ " " ++ offStr r.srcp ++ " " ++
                   (if dstlen = 0 then "-" else String.intercalate "," (r.dst.map fun w => String.ofList (Nat.toDigits 16 w)))
             | none => bad
         | _, _ => bad
@@ -163,11 +209,19 @@ def step (_ : Unit) (line : String) : Unit × String :=
           if fl > 31 ∨ p.contains 0 ∨ str.contains 0 then bad
           else
             match decodeStrict (p.length + 1) p [] with
-            | .inl rc => toString rc ++ " ## " ++ toString rc
+            | .inl rc =>
+              -- invalid pattern: mbrtowc sets EILSEQ → FNM_NOMATCH; incomplete: errno is NOT set and
+              -- the code tests the caller's errno: -1 unless that happened to be EILSEQ
+              if rc = 1 then "1 e=EILSEQ ## 1"
+              else if st = "EILSEQ" then "1 e=EILSEQ ## 1" else "-1 e=" ++ st ++ " ## -1"
             | .inr wp =>
               let ws := decodeLax (str.length + 1) str []
               let f := FnFlags.ofNat fl
-              toString (fnmatchSpec f wp ws) ++ " ## " ++ toString (wfnmatch f wp ws)
+              let e := match firstFail (str.length + 1) str with
+                | none => st
+                | some true => "EILSEQ"
+                | some false => if laxInvalid (str.length + 1) str then "EILSEQ" else st
+              toString (fnmatchSpec f wp ws) ++ " e=" ++ e ++ " ## " ++ toString (wfnmatch f wp ws)
         | _, _, _ => bad
       else bad
     | [op, a, b] =>
@@ -200,28 +254,28 @@ def step (_ : Unit) (line : String) : Unit × String :=
           if a.startsWith "+" then bad
           else if af = 4 then
             match pton4 (s ++ [0]) with
-            | some v => "1 0 " ++ hexOf v
-            | none => "0 0 " ++ hexOf (fillAA 4)
+            | some v => "1 e=" ++ st ++ " " ++ hexOf v
+            | none => "0 e=" ++ st ++ " " ++ hexOf (fillAA 4)
           else if af = 6 then
             match pton6 (s ++ [0]) with
-            | some v => "1 0 " ++ hexOf v
-            | none => "0 0 " ++ hexOf (fillAA 16)
-          else "-1 EAFNOSUPPORT " ++ hexOf (fillAA 16)
+            | some v => "1 e=" ++ st ++ " " ++ hexOf v
+            | none => "0 e=" ++ st ++ " " ++ hexOf (fillAA 16)
+          else "-1 e=EAFNOSUPPORT " ++ hexOf (fillAA 16)
         | _, _ => bad
       else if op = "reallocarray" then
         match u64? a, u64? b with
         | some c, some s =>
           match reallocarray c s with
-          | .realloc t => "realloc " ++ toString t
-          | .enomem => "null ENOMEM"
+          | .realloc t => "realloc " ++ toString t ++ " e=" ++ st
+          | .enomem => "null e=ENOMEM"
         | _, _ => bad
       else if op = "getline" then
         match arg a with
         | some content =>
-          if b = "null" then String.intercalate " " (getlineAll 64 content none)
+          if b = "null" then String.intercalate " " (getlineAll 64 content none) ++ " e=" ++ st
           else match b.toNat? with
             | some init => if init = 0 ∨ init > 100000 then bad
-                           else String.intercalate " " (getlineAll 64 content (some init))
+                           else String.intercalate " " (getlineAll 64 content (some init)) ++ " e=" ++ st
             | none => bad
         | none => bad
       else bad
@@ -236,12 +290,12 @@ def step (_ : Unit) (line : String) : Unit × String :=
         | none => bad
         | some path =>
           if op = "basename" then
-            hexOf (basename path) ++ " ## " ++
+            hexOf (basename path) ++ " e=" ++ st ++ " ## " ++
               (match basenameLoc path with | some k => "path+" ++ toString k | none => "static")
           else
             match dirname path with
-            | some d => hexOf d ++ " ## static"
-            | none => "null ENAMETOOLONG"
+            | some d => hexOf d ++ " e=" ++ st ++ " ## static"
+            | none => "null e=ENAMETOOLONG"
       else bad
     | ["timegm", y, mo, d, h, mi, s] =>
       match y.toInt?, mo.toInt?, d.toInt?, h.toInt?, mi.toInt?, s.toInt? with
@@ -252,6 +306,11 @@ def step (_ : Unit) (line : String) : Unit × String :=
           toString r.secs ++ " wday=" ++ toString r.wday ++ " tz-restored"
       | _, _, _, _, _, _ => bad
     | _ => bad
-  ((), out)
+  let st' :=
+    match words line with
+    | ["#case"] => "0"
+    | ["errno", n] => if out = "ok" then n else st
+    | _ => errnoAfter st out
+  (st', out)
 
-def main : IO Unit := runDriver () step
+def main : IO Unit := runDriver "0" step
